@@ -98,3 +98,22 @@ class TsExtractIdentifierName:
 
     def inv0(self, node, rest):
         return ts_first_name_child(node.children) == ts_first_name_child(rest)
+
+
+def _native_parse_ts(code):
+    from src.analyzers.typescript_base import TypeScriptBaseAnalyzer
+    return TypeScriptBaseAnalyzer().parse_typescript(code)
+
+
+from pyvc.api import uf  # noqa: E402
+
+ts_root = uf("ts_root", [Str], TSNode, concrete=_native_parse_ts)  # parse tree of a source text (parser trusted)
+
+
+@contract(TB + "TypeScriptBaseAnalyzer.parse_typescript", props=["C01", "C16", "C02"], types=dict(self=TsBaseT, code=Str),
+          returns=Opt(TSNode),
+          assumed="tree-sitter parser (external): returns the root node of the parse tree of `code` (a function of the "
+                  "text), or None when tree-sitter is unavailable; every clause is decided modulo the parse tree")
+class TsParseTypescript:
+    def value(self, code):
+        return ts_root(code)     # None (the null node) when tree-sitter is unavailable
